@@ -10,9 +10,11 @@ import (
 	"verifharness/ev"
 	"verifharness/memtr"
 	"verifharness/refbmc"
+	"verifharness/refcodec"
 
 	"github.com/gebn/bmc"
 	"github.com/gebn/bmc/pkg/ipmi"
+	"github.com/google/gopacket"
 )
 
 type c15P struct {
@@ -267,6 +269,19 @@ func c15Read(run *ev.Run, env *c15Env, p c15P, reuse bmc.SensorReader) bmc.Senso
 	rec.Linearisation = ipmi.Linearisation(p.Lin)
 	rec.M, rec.B, rec.BExp, rec.RExp = int16(p.M), int16(p.B), int8(p.K1), int8(p.K2)
 	desc := fmt.Sprintf("raw %#x format %d L %d flags %#x M %d B %d K1 %d K2 %d", p.Raw, p.Format, p.Lin, p.Flags, p.M, p.B, p.K1, p.K2)
+	if (p.Raw+p.M+p.K1)&1 == 0 {
+		// the record arrives the way it does in use: decoded from its wire form
+		tl, idb := refcodec.IDString(3, []rune("sensor"))
+		wire := refcodec.FullSensorRecord(rec, tl, idb, make([]byte, 43))
+		dec := &ipmi.FullSensorRecord{}
+		if derr := dec.DecodeFromBytes(wire, gopacket.NilDecodeFeedback); derr != nil {
+			run.Violation("C15:record-decode", fmt.Sprintf("%s: the record's wire form %x does not decode: %v", desc, wire, derr), cs, nil)
+			return nil
+		}
+		rec = dec
+		desc += " (record decoded from wire form)"
+		run.Event("records-decoded-from-wire", 1)
+	}
 	rd, err := bmc.NewSensorReader(rec)
 	wantCtorErr := p.Lin >= 12 || p.Format == 3
 	if (err != nil) != wantCtorErr {
@@ -280,6 +295,15 @@ func c15Read(run *ev.Run, env *c15Env, p c15P, reuse bmc.SensorReader) bmc.Senso
 	if reuse != nil {
 		rd = reuse
 		desc += " (second read on a used reader)"
+	} else if (p.Raw+p.B)&1 == 0 {
+		// the caller goes on to use its record value for the next sensor; the
+		// reader was built for the record as it was
+		*rec = ipmi.FullSensorRecord{}
+		rec.Number, rec.OwnerLUN = uint8(p.Number+1), ipmi.LUN((p.LUN+1)%4)
+		rec.AnalogDataFormat, rec.Linearisation = ipmi.AnalogDataFormat((p.Format+1)%3), ipmi.Linearisation((p.Lin+5)%12)
+		rec.M, rec.B, rec.BExp, rec.RExp = int16(p.M/2+3), int16(-p.B+1), int8(-p.K1/2), int8((p.K2+9)%16-8)
+		desc += " (record value overwritten after the reader was built)"
+		run.Event("records-overwritten-after-construction", 1)
 	}
 	env.sd.Set(byte(p.LUN), byte(p.Number), []byte{byte(p.Raw), byte(p.Flags), 0x00})
 	run.Event("sensor-reads-served", 1)
